@@ -676,8 +676,10 @@ def visitItem (c : BCfg) : Nat → Item → BM (Option Node)
 end
 
 /-- `MacroProgram(body, mode, …)`: the whole template → (body node, macros) -/
-def buildProgram (c : BCfg) (textMode : Bool) (src : Str) : CRes (Node × List (Str × Node)) := do
-  let toks := if textMode then iterText src else iterXmlWith c.rx.xmlSpe src
+def buildProgram (c : BCfg) (textMode : Bool) (src : Str) (base : Nat := 0) : CRes (Node × List (Str × Node)) := do
+  -- `base`: where this template's source starts in the position space shared by all templates of one rendering
+  let toks0 := if textMode then iterText src else iterXmlWith c.rx.xmlSpe src
+  let toks := if base == 0 then toks0 else toks0.map (fun t => { t with pos := t.pos + base })
   -- in text mode every token is text (before the D-20a fix the token went through `identify`)
   let items ← if textMode && !c.q.textModeIdentify then pure (toks.map Item.text)
               else parseTokens c.rx c.restrictedNamespace toks
